@@ -90,13 +90,49 @@ func (w *World) Assign(src *World) {
 	w.Tables, w.Aggs, w.Opaque, w.Bank, w.Log = c.Tables, c.Aggs, c.Opaque, c.Bank, c.Log
 }
 
+// modOfTable: "commitment:types.ParamsKey" / "amm~:..." -> "commitment" / "amm"
+func modOfTable(id string) string {
+	if i := strings.Index(id, ":"); i >= 0 {
+		id = id[:i]
+	}
+	return strings.TrimSuffix(id, "~")
+}
+
+// genSuffix names the generation of a module's unknown contents: bumped whenever a callee
+// may have rewritten the module's tables wholesale, so that tables first looked at after
+// such a call do not share symbols with the state before it.
+func (w *World) genSuffix(mod string) string {
+	g := w.Opaque[mod] + w.Opaque["*"]
+	if g == 0 {
+		return ""
+	}
+	return fmt.Sprintf("!g%d.%d", w.Opaque["*"], w.Opaque[mod])
+}
+
 func (w *World) table(ex *Exec, id string) *Table {
 	t := w.Tables[id]
 	if t == nil {
-		t = &Table{ID: id, Base: ex.worldBase + "T!" + id}
+		t = &Table{ID: id, Base: ex.worldBase + "T!" + id + w.genSuffix(modOfTable(id))}
 		w.Tables[id] = t
 	}
 	return t
+}
+
+// havocModule: every table of the module may have changed.
+func (ex *Exec) havocModule(w *World, mod string) {
+	for id := range w.Tables {
+		if modOfTable(id) == mod {
+			ex.tableHavoc(w, id)
+		}
+	}
+	w.Opaque[mod]++
+	for _, d := range ex.Cfg.Aggs {
+		if modOfTable(d.TableID) == mod {
+			ex.fresh++
+			w.Aggs[d.Name] = &AggState{Base: fmt.Sprintf("%sagg!%s!h%d", ex.worldBase, d.Name, ex.fresh)}
+		}
+	}
+	w.Log = append(w.Log, "havoc module "+mod)
 }
 
 // ---- coins as amount functions -------------------------------------------------------
@@ -428,7 +464,13 @@ func (ex *Exec) aggsOn(id string) []*AggDecl {
 func (ex *Exec) aggState(w *World, name string) *AggState {
 	a := w.Aggs[name]
 	if a == nil {
-		a = &AggState{Base: ex.worldBase + "agg!" + name}
+		suffix := ""
+		for _, d := range ex.Cfg.Aggs {
+			if d.Name == name {
+				suffix = w.genSuffix(modOfTable(d.TableID))
+			}
+		}
+		a = &AggState{Base: ex.worldBase + "agg!" + name + suffix}
 		w.Aggs[name] = a
 	}
 	return a
